@@ -182,6 +182,12 @@ def undecorated(cls, name):
     return f
 
 
+def freeze_time(t):
+    import time as _t
+    _t.time = lambda: t
+    return True
+
+
 def clone_class(cls):
     """a fresh copy of a class definition (native counterpart of the interpreter's clone_class)"""
     return type(cls.__name__, cls.__bases__, dict(cls.__dict__))
@@ -196,12 +202,12 @@ AUDITS: list = []
 
 def contract(fn, name, call, vars=None, requires=(), ensures=(), raises=None, ensures_raise=(), instances=None,  # noqa: A002
              uses=(), loops=None, modular=None, note="", must_inline=(), replay=None, on_effect=None, covers=(),
-             assumes=(), tier="quick", max_paths=None, expected_paths=None, stubs=None, refs=None, bounded=None):
+             assumes=(), tier="quick", max_paths=None, expected_paths=None, stubs=None, refs=None, bounded=None, json_model=None, scenario=None):
     c = dict(fn=fn, name=name, call=call, vars=vars or {}, requires=list(requires), ensures=list(ensures),
              raises=raises, ensures_raise=list(ensures_raise), instances=instances or [{}], uses=list(uses),
              loops=loops or {}, modular=modular, note=note, must_inline=list(must_inline), replay=replay,
              on_effect=on_effect or {}, covers=list(covers), assumes=list(assumes), tier=tier, max_paths=max_paths,
-             stubs=stubs or {}, refs=refs or {}, bounded=bounded)
+             stubs=stubs or {}, refs=refs or {}, bounded=bounded, json_model=json_model, scenario=scenario)
     CONTRACTS.append(c)
     return c
 
